@@ -8,7 +8,8 @@ packet once) is exactly the input stream in order. Packets never exceed the max 
 transfer ends with a short packet or a zero-length packet, a retried packet repeats the same PID and
 payload, and an IN token finding no data is NAKed."
 
-Status of this file: **partial**.  Proved for all `mps ≥ 1` and unbounded histories:
+This file holds the structural invariant and the packet-level statements, for all `mps ≥ 1` and
+unbounded histories:
 
 * `inv_reachable` — the structural invariant `Inv` (buffer memories keep their size, both fill
   counts stay ≤ mps, the read buffer is empty in WAIT_FOR_DATA, and in SEND_PACKET the byte on the
@@ -19,19 +20,17 @@ Status of this file: **partial**.  Proved for all `mps ≥ 1` and unbounded hist
 * `send_packet_streams_buffer` — a whole SEND_PACKET phase hands over exactly
   `read_buffer[send_position ..]`.
 
-NOT proved (stated here so that the gap is visible):
+The two history-level statements of the property are proved on top of these, by ghost-state induction,
+in separate modules (all audited by the C11 check):
 
-  theorem in_exactly_once (c) (h : 1 ≤ c.mps) (ins) (henv : LegalInEnv ins) :
-      hostAccepted (trace c (init c) ins) ++ pending (runState c (init c) ins)
-        = producerAccepted c (trace c (init c) ins)
-  theorem transfer_ends_short_or_zlp …
-
-(`pending s` = the un-ACKed read buffer, when the host has not yet kept it, followed by the write
-buffer).  The lemmas below are the building blocks of that refinement (frozen read buffer, payload =
-buffer contents, PID flips exactly when a new packet is staged, empty read buffer when idle); the
-missing part is the ghost-state induction tying `hostAccepted` to them, and the ZLP bookkeeping of
-`stream_ended`.  The exactly-once statement itself is checked on every run by the host-view monitor
-on the real gateware (`harness/props/c11.py`).
+* `Lemmas/C11Host.lean` — specification: the observer of the interface trace (host view with DATA0/DATA1
+  de-duplication, producer log), the abstraction map `pending`, the boundary checker `endsOk`, the
+  environments `LegalInEnv` / `LegalZlpEnv`;
+* `Lemmas/C11Refine.lean` — `in_exactly_once`:
+  `hostAccepted tr ++ pending (state) (host toggle) = producerAccepted tr` at every cycle of every history
+  with `discard = reset_sequence = 0`;
+* `Lemmas/C11Ends.lean` — `transfer_ends_short_or_zlp` (additionally `generate_zlps = 1`);
+  `Lemmas/C11EndsSpec.lean` — the checker's verdict unfolded into ∀-statements.
 -/
 namespace LunaVerif.InXfer
 
